@@ -58,6 +58,10 @@ namespace pika::threads::detail {
       , queue_(queue)
     {
         PIKA_LOG(debug, "thread::thread({}), description({})", fmt::ptr(this), get_description());
+#if defined(PIKA_VERIF)
+        PIKA_VERIF_POINT(106, this, 0,
+            static_cast<std::uint64_t>(current_state_.load(std::memory_order_relaxed).verif_raw()));
+#endif
 
         PIKA_ASSERT(stacksize_enum_ != execution::thread_stacksize::current);
 
@@ -189,6 +193,12 @@ namespace pika::threads::detail {
 
         free_thread_exit_callbacks();
 
+#if defined(PIKA_VERIF)
+        PIKA_VERIF_POINT(105, this,
+            static_cast<std::uint64_t>(current_state_.load(std::memory_order_relaxed).verif_raw()),
+            static_cast<std::uint64_t>(
+                thread_state(init_data.initial_state, thread_restart_state::signaled).verif_raw()));
+#endif
         current_state_.store(thread_state(init_data.initial_state, thread_restart_state::signaled));
 
 #ifdef PIKA_HAVE_THREAD_DESCRIPTION
